@@ -473,6 +473,40 @@ class Report:
         return 1 if self.violations else 0
 
 
+def evaluate_corr(report, imports, corr_mod, name, case_type, cases, meta, agree, prop, shard=400):
+    """Model-vs-implementation (agree) and property-on-implementation-output (prop)."""
+    try:
+        bad = eval_bad_indices(imports, "", case_type, cases, [agree, prop], tag=name, shard=shard)
+    except RuntimeError as e:
+        report.violation(
+            f"corr_{name}_uncheckable",
+            dict(kind="corr", function=name, correspondence=f"{corr_mod}.{agree}", error=str(e)),
+            found_input=False,
+        )
+        return
+    report.notes[f"{name}.cases"] = len(cases)
+    report.notes[f"{name}.disagreements"] = len(bad[agree])
+    report.notes[f"{name}.property_failures"] = len(bad[prop])
+    if bad[prop]:
+        i = bad[prop][0]
+        report.violation(
+            f"{name}_{i}",
+            dict(kind="corr+property", function=name, case=meta[i], model_agrees=i not in bad[agree],
+                 checker=f"{corr_mod}.{prop}", note="the implementation's own output fails the property predicate"),
+        )
+    elif bad[agree]:
+        i = bad[agree][0]
+        report.violation(
+            f"{name}_{i}",
+            dict(kind="corr", function=name, case=meta[i], correspondence=f"{corr_mod}.{agree}",
+                 note="model and implementation disagree; property predicate held on all implementation outputs explored",
+                 disagreeing_cases=len(bad[agree])),
+            found_input=False,
+        )
+
+
+
+
 def proof_gate(report):
     """Run the proof build; on failure record a proof-level violation (the caller still
     runs the correspondence / search so that a concrete input can be reported)."""
